@@ -125,13 +125,17 @@ def _native_sync(d):
     raise ValueError("cannot rebuild sync %r" % (d,))
 
 
-def install_loggers(api, current):
+def install_loggers(api, current, stubs=()):
     """natively, the ghost event log is filled by wrappers around the real functions whose contracts
     declare `log_entry` (the function under replay itself is not wrapped)"""
     from pyvc import spec
     spec._GHOST["log"] = []
+    pending = [list(x) for x in stubs]
     for c in api.REGISTRY:
-        if c.log_entry is None or c is current or c.target == current.target:
+        if current.prop != c.prop and current.prop not in c.also:
+            continue
+        if (c.log_entry is None and c.proof != "table" and c.requires is None) or c is current or c.target == current.target \
+                or not c.at_calls or isinstance(c.target_obj, type):
             continue
         parts = c.target.split(".")
         owner = importlib.import_module(".".join(parts[:-2]))
@@ -141,12 +145,36 @@ def install_loggers(api, current):
             continue
 
         def wrapper(*a, _orig=orig, _c=c, **kw):
-            try:
-                ba = inspect.signature(_orig).bind(*a, **kw)
-                ba.apply_defaults()
-                spec._GHOST["log"].append(call_spec(_c.log_entry, dict(ba.arguments)))
-            except Exception as e:  # noqa
-                spec._GHOST["log"].append(("log-error", repr(e)))
+            if _c.native_accepts is not None:
+                try:
+                    ba = inspect.signature(_orig).bind(*a, **kw)
+                    ba.apply_defaults()
+                    if not call_spec(_c.native_accepts, dict(ba.arguments)):
+                        return _orig(*a, **kw)
+                except Exception:  # noqa
+                    return _orig(*a, **kw)
+            if _c.requires is not None:
+                try:
+                    ba = inspect.signature(_orig).bind(*a, **kw)
+                    ba.apply_defaults()
+                    if not call_spec(_c.requires, dict(ba.arguments)):
+                        spec._GHOST.setdefault("pre_failed", []).append(_c.short)
+                except Exception:  # noqa
+                    pass
+            if _c.log_entry is not None:
+                try:
+                    ba = inspect.signature(_orig).bind(*a, **kw)
+                    ba.apply_defaults()
+                    spec._GHOST["log"].append(call_spec(_c.log_entry, dict(ba.arguments)))
+                except Exception as e:  # noqa
+                    spec._GHOST["log"].append(("log-error", repr(e)))
+            if _c.proof == "table":
+                # an ASSUMED summary: the callee is replaced by the value the counterexample chose
+                for i, (label, val) in enumerate(pending):
+                    if label == _c.label:
+                        del pending[i]
+                        return build(val)
+                return None
             return _orig(*a, **kw)
         wrapper._pyvc_logged = True
         setattr(owner, parts[-1], wrapper)
@@ -182,7 +210,7 @@ def main():
             val = build(v)
             setattr(owner, attr, val)
             ns["state_" + attr] = val
-        install_loggers(api, c)
+        install_loggers(api, c, w.get("stubs", ()))
         if c.setup_spec is not None:
             call_spec(c.setup_spec, ns)
         if getattr(c, "snapshot_spec", None) is not None:
@@ -221,6 +249,14 @@ def main():
             ns["state_" + attr] = getattr(verify.resolve_target(path), attr)
         name = w["obligation"]
         kind = name.rsplit("/", 1)[-1]
+        from pyvc import spec as _spec
+        if kind.startswith("pre@"):
+            failed = _spec._GHOST.get("pre_failed", [])
+            out["outcome"] = "raise" if "exc" in box else "ret"
+            out["confirmed"] = kind[len("pre@"):] in failed
+            out["detail"] = "callee preconditions violated natively during the run: %r" % (failed,)
+            print(json.dumps(out))
+            return
         if "exc" in box:
             e = box["exc"]
             out["outcome"] = "raise"
